@@ -396,6 +396,101 @@ theorem C04_activation_not_rechecked : ¬ exLaxThenStrict.NowChecked .repaired :
 theorem C04_activation_value_refused :
     (exLaxThenStrict.push .repaired .outConnects 0 1 (.s "abc")).2 = .receiverRejects := by decide
 
+/-! ## connection targets that forward their data: acceptance looks at the two connected channels only -/
+
+/-- **C04_link_local**: whether a link is accepted depends on the two channels it joins (hint and flag of each, the
+sender's current value for a value link, whether the two are connected already) and on nothing else in the graph —
+in particular not on the value receivers either of them forwards to, nor on their hints or flags -/
+theorem C04_link_local (cfg : Cfg) (n n' : Net) (via : Via) (s r : Nat)
+    (hs : n.chan s = n'.chan s) (hr : n.chan r = n'.chan r) (hv : n.val s = n'.val s)
+    (hl : n.hasLink via s r = n'.hasLink via s r) :
+    (n.link cfg via s r).2 = (n'.link cfg via s r).2 := by
+  unfold Net.link
+  rw [hs, hr, hv, hl]
+  repeat' split
+  all_goals first | rfl | simp_all
+
+/-- for a new connection between hinted channels with a strict receiver the outcome IS the comparison of the
+hints of the two connected channels -/
+theorem C04_link_outcome (cfg : Cfg) (n : Net) (via : Via) (s r : Nat) (hs hr : Hint)
+    (hc : via.isConnection = true) (hnew : n.hasLink via s r = false)
+    (h1 : (n.chan s).hint = some hs) (h2 : (n.chan r).hint = some hr) (h3 : (n.chan r).strict = true) :
+    (n.link cfg via s r).2 =
+      match compare cfg hs hr with
+      | some true => .ok | some false => .refused | none => .diverges := by
+  unfold Net.link
+  rw [C04_gate_consults cfg via _ _ hs hr h1 h2 h3, hc, hnew]
+  cases compare cfg hs hr with
+  | none => simp
+  | some b => cases b <;> simp
+
+/-- `Outer(x: int) → Inner(x: int) → Halve(x: int | float)` (three strict inputs, two legal value links) and an
+upstream output hinted `float` -/
+def exChain : Net :=
+  (Net.init fun i => if i = 0 then ⟨some (.cls .float), true⟩ else if i = 3 then
+      ⟨some (.unionNew [.cls .int, .cls .float]), true⟩ else ⟨some (.cls .int), true⟩).run .repaired
+    [.link .recvInp 1 2, .link .recvInp 2 3]
+
+/-- **C04_end_of_chain_witness**: the tree refuses `float → outer.x`; a gate that judges the END of the chain
+accepts it, although `2.5` is admitted by `float` and not by the `int` of the channel the connection is made to -/
+theorem C04_end_of_chain_witness :
+    exChain.links = [⟨.recvInp, 2, 3, true⟩, ⟨.recvInp, 1, 2, true⟩] ∧
+    exChain.consumer (exChain.links.length + 1) 1 = 3 ∧
+    (exChain.link .repaired .inpConnects 0 1).2 = .refused ∧
+    exChain.gateEnd .repaired .inpConnects 0 1 = some true ∧
+    admits .repaired (.cls .float) (.f 1) = true ∧ admits .repaired (.cls .int) (.f 1) = false := by
+  refine ⟨by decide, by decide, by decide, by decide, by decide, by decide⟩
+
+/-- so "hold the connection to the hint of whoever finally consumes the data" is not a sound policy -/
+theorem C04_end_of_chain_unsound :
+    ¬ ∀ (n : Net) (via : Via) (s r : Nat) (hs hr : Hint) (v : V), (n.chan s).hint = some hs →
+        (n.chan r).hint = some hr → (n.chan r).strict = true → LitClean hr →
+        n.gateEnd .repaired via s r = some true → admits .repaired hs v = true → admits .repaired hr v = true := by
+  intro h
+  have w := C04_end_of_chain_witness
+  have := h exChain .inpConnects 0 1 (.cls .float) (.cls .int) (.f 1) rfl rfl rfl (by decide) w.2.2.2.1 w.2.2.2.2.1
+  rw [w.2.2.2.2.2] at this
+  cases this
+
+/-- **C04_chain_sound**: along value links that strict receivers accepted the hints only widen: whatever the hint at
+the head of a chain admits, the hint at its end admits (so data accepted at the head of a chain of macro inputs is
+never refused further down) -/
+theorem C04_chain_sound (chan : Nat → Chan) (ops : List Op)
+    (hall : ∀ k, ∃ h, (((Net.init chan).run .repaired ops).chan k).hint = some h ∧ LitClean h) (v : V) :
+    ∀ (ls : List Link) (i j : Nat) (hi hj : Hint), ((Net.init chan).run .repaired ops).Walk i ls j →
+      (((Net.init chan).run .repaired ops).chan i).hint = some hi →
+      (((Net.init chan).run .repaired ops).chan j).hint = some hj →
+      admits .repaired hi v = true → admits .repaired hj v = true := by
+  intro ls
+  induction ls with
+  | nil =>
+    intro i j hi hj hw e1 e2 hv
+    simp only [Net.Walk] at hw; subst hw
+    rw [e1] at e2; cases e2; exact hv
+  | cons l ls ih =>
+    intro i j hi hj hw e1 e2 hv
+    obtain ⟨hmem, hst, hsi, hrest⟩ := hw
+    subst hsi
+    obtain ⟨hm, em, cm⟩ := hall l.r
+    exact ih l.r j hm hj hrest em e2 (C04_history_sound chan ops l hmem hst hi hm e1 em cm v hv)
+
+/-- the deep push over a connection into a chain head: the head's own check comes first -/
+theorem C04_deliver_checks_head (cfg : Cfg) (n n' : Net) (fuel i : Nat) (v : V)
+    (h : n.deliver cfg fuel i v = some n') : typeCheckOk cfg (n.chan i) v = true := by
+  cases fuel with
+  | zero => simp [Net.deliver] at h
+  | succ f =>
+    simp only [Net.deliver] at h
+    split at h
+    · cases h
+    · rename_i hc; simpa using hc
+
+example : exChain.Walk 1 [⟨.recvInp, 1, 2, true⟩, ⟨.recvInp, 2, 3, true⟩] 3 := by
+  refine ⟨by decide, rfl, rfl, by decide, rfl, rfl, rfl⟩
+example : ((exChain.step .repaired (.strict 1 false)).link .repaired .outConnects 0 1).2 = .ok ∧
+    (((exChain.step .repaired (.strict 1 false)).link .repaired .outConnects 0 1).1.pushDeep .repaired
+      .outConnects 0 1 (.f 1)).2 = .receiverRejects := by decide
+
 /-! ## the pinned code: machine-checked counterexamples -/
 
 /-- `Union[int, float]` vs `int`, and any old-style union against a non-union: no answer, ever -/
@@ -601,3 +696,9 @@ end PwVerif.C04
 #print axioms PwVerif.C04.C04_now_needs_isinstance_agrees
 #print axioms PwVerif.C04.C04_args_fixed_behaviour
 #print axioms PwVerif.C04.C04_gate_sound_now
+#print axioms PwVerif.C04.C04_link_local
+#print axioms PwVerif.C04.C04_link_outcome
+#print axioms PwVerif.C04.C04_end_of_chain_witness
+#print axioms PwVerif.C04.C04_end_of_chain_unsound
+#print axioms PwVerif.C04.C04_chain_sound
+#print axioms PwVerif.C04.C04_deliver_checks_head
